@@ -204,6 +204,11 @@ class XExprEvaluator(ModelVisitor):
     def visit_expr_fieldref(self, e : ExprFieldRefModel):
         e.fm.accept(self)
         
+    def visit_expr_indexed_fieldref(self, e):
+        # Evaluate the field that the index path designates (eg a 
+        # field of an element of an object list), not its container
+        e.get_target().accept(self)
+        
     def visit_expr_array_subscript(self, s : ExprArraySubscriptModel):
         # Need to get field
         field : FieldArrayModel = Expr2FieldVisitor().field(s.lhs)
